@@ -90,7 +90,7 @@ class EventsSuite(Suite):
 
     # ------------------------------------------------------------------ generators
     def cases(self, rng, tier, prop):
-        n = {"quick": 140, "thorough": 1500}[tier]
+        n = {"quick": 300, "thorough": 3000}[tier]
         out = []
         for i in range(n):
             out.append(self._gen(rng, i))
@@ -103,7 +103,7 @@ class EventsSuite(Suite):
         names = rng.sample(NAMES, rng.randint(1, 4))
         if rng.random() < .15:
             names.append(rng.choice(RESOURCE))
-        mode = rng.choice(["dups", "dups", "few", "distinct", "odd", "reversed", "sorted"])
+        mode = rng.choice(["dups", "dups", "few", "distinct", "odd", "odd", "reversed", "sorted"])
         if mode in ("dups", "reversed", "sorted"):
             pool = rng.sample(CLOCK, rng.randint(1, 4))
         elif mode == "few":
